@@ -494,6 +494,34 @@ func symbolicStringFunc(fr *frame, name string, args []value) (value, bool) {
 		}
 		out = append(out, strValue(mkConcat(cur...)))
 		return out, true
+	case "strings.LastIndex", "strings.Index":
+		// haystack symbolic, needle one constant byte: decide whether it occurs;
+		// if so split the haystack at its last (first) occurrence with fresh
+		// parts - definitional constraints on the path - and answer the length
+		// of the part before it
+		a, ok1 := str(0)
+		b, ok2 := str(1)
+		if !ok1 || !ok2 || !b.isConst() || len(b.S) != 1 {
+			return nil, false
+		}
+		if a.isConst() {
+			if name == "strings.Index" {
+				return strings.Index(a.S, b.S), true
+			}
+			return strings.LastIndex(a.S, b.S), true
+		}
+		if !fr.i.ps.decideBool(mkStrPred("str.contains", a, b), "index-contains") {
+			return -1, true
+		}
+		pre := mkVar(fr.i.ps.freshName("idxpre"), sortStr)
+		post := mkVar(fr.i.ps.freshName("idxpost"), sortStr)
+		fr.i.ps.assertPC(mkEq(a, mkConcat(pre, b, post)))
+		if name == "strings.Index" {
+			fr.i.ps.assertPC(mkNot(mkStrPred("str.contains", pre, b)))
+		} else {
+			fr.i.ps.assertPC(mkNot(mkStrPred("str.contains", post, b)))
+		}
+		return intValue(mkInt2BV(64, mkStrLen(pre)), types.Int), true
 	case "strings.Cut":
 		a, ok1 := str(0)
 		b, ok2 := str(1)
